@@ -7,12 +7,12 @@ VARIABLE l
 TraceLog == ndJsonDeserialize("trace.ndjson")
 Ev == TraceLog[l]
 AsSet(s) == {s[i] : i \in 1..Len(s)}
-CallOf(e) == [m |-> e.m, named |-> e.named, signers |-> AsSet(e.signers), ctx |-> e.ctx, due |-> e.due]
+CallOf(e) == [m |-> e.m, named |-> e.named, signers |-> AsSet(e.signers), ctx |-> e.ctx, ep |-> e.ep]
 Judge == LET c == CallOf(Ev)
-             due == c.m = "nm.commitDpos" /\ c.due
+             due == Due(c)
          IN PrintT(<<"VERDICT", ToJson([i |-> l, m |-> c.m, witnessed |-> Witnessed(c), allowed |-> Allowed(c),
                                         ok |-> C18Row(Witnessed(c), due, Ev.got, Ev.changed)])>>)
-TraceInit == TLCSet(1, 1) /\ l = 1 /\ call = [m |-> "", named |-> "", signers |-> {}, ctx |-> <<>>, due |-> FALSE]
+TraceInit == TLCSet(1, 1) /\ l = 1 /\ call = [m |-> "", named |-> "", signers |-> {}, ctx |-> <<>>, ep |-> NoEpoch]
              /\ verdict = "pending" /\ changed = FALSE
 TraceNext == /\ l <= Len(TraceLog)
              /\ Ev.m \in Methods /\ Ev.got \in {"accept", "reject"}
